@@ -177,11 +177,24 @@ package kvql
 //@   requires wfBin(e)
 //@   assigns ctx.Hit, mapof(ctx.FieldCaches), mapof(ctx.FieldChunkKeyCaches), mapof(ctx.FieldChunkCaches)
 //@   ensures own: err == nil ==> isnil(ret) || fresh(ret)
+// BETWEEN in batch mode: row i is what the row form gives on pair i (text bounds byte-wise, integer
+// bounds numerically; bounds in the wrong order stop the batch like they stop the row form).
 //@ func (e *BinaryOpExpr) execBetweenBatch(chunk []KVPair, number bool, ctx *ExecuteCtx) (ret []any, err error)
-//@   trusted thin contract (frame only), body not yet verified
-//@   requires wfBin(e)
+//@   props C03
+//@   requires wfBetween(e)
 //@   assigns ctx.Hit, mapof(ctx.FieldCaches), mapof(ctx.FieldChunkKeyCaches), mapof(ctx.FieldChunkCaches)
+//@   ensures[C03] shape: err == nil ==> len(ret) == len(chunk) && bshape(e) && (forall i Int :: 0 <= i && i < len(chunk) ==> lokI(e, chunk, i) && evalok(blo(e), ck(chunk, i), cv(chunk, i)) && evalok(bhi(e), ck(chunk, i), cv(chunk, i)))
+//@   ensures[C03] types: err == nil ==> ite(number, rtype(blo(e)) == TNUMBER && rtype(bhi(e)) == TNUMBER, rtype(blo(e)) == TSTR && rtype(bhi(e)) == TSTR)
+//@   ensures[C03] texts: err == nil && !number ==> (forall i Int :: 0 <= i && i < len(chunk) ==> isText(lvI(e, chunk, i)) && isText(evalv(blo(e), ck(chunk, i), cv(chunk, i))) && isText(evalv(bhi(e), ck(chunk, i), cv(chunk, i))) && cmp(textOf(evalv(blo(e), ck(chunk, i), cv(chunk, i))), textOf(evalv(bhi(e), ck(chunk, i), cv(chunk, i)))) <= 0 && ret[i] == ABool(cmp(textOf(evalv(blo(e), ck(chunk, i), cv(chunk, i))), textOf(lvI(e, chunk, i))) <= 0 && cmp(textOf(lvI(e, chunk, i)), textOf(evalv(bhi(e), ck(chunk, i), cv(chunk, i)))) <= 0))
+//@   ensures[C03] numbers: err == nil && number ==> (forall i Int :: 0 <= i && i < len(chunk) ==> isNum(lvI(e, chunk, i)) && isNum(evalv(blo(e), ck(chunk, i), cv(chunk, i))) && isNum(evalv(bhi(e), ck(chunk, i), cv(chunk, i))) && (isInt(lvI(e, chunk, i)) && isInt(evalv(blo(e), ck(chunk, i), cv(chunk, i))) && isInt(evalv(bhi(e), ck(chunk, i), cv(chunk, i))) ==> intof(evalv(blo(e), ck(chunk, i), cv(chunk, i))) <= intof(evalv(bhi(e), ck(chunk, i), cv(chunk, i))) && ret[i] == ABool(intof(evalv(blo(e), ck(chunk, i), cv(chunk, i))) <= intof(lvI(e, chunk, i)) && intof(lvI(e, chunk, i)) <= intof(evalv(bhi(e), ck(chunk, i), cv(chunk, i))))))
 //@   ensures own: err == nil ==> isnil(ret) || fresh(ret)
+//@   loop 0
+//@     invariant 0 <= i && i <= len(chunk) && len(rleft) == len(chunk) && len(lbvals) == len(chunk) && len(ubvals) == len(chunk) && (isnil(rleft) || fresh(rleft)) && (isnil(lbvals) || fresh(lbvals)) && (isnil(ubvals) || fresh(ubvals)) && (len(chunk) > 0 ==> ptr(rleft) != ptr(lbvals) && ptr(rleft) != ptr(ubvals)) && bshape(e) && lexpr == blo(e) && uexpr == bhi(e)
+//@     invariant forall j Int :: 0 <= j && j < len(chunk) ==> lokI(e, chunk, j) && evalok(blo(e), ck(chunk, j), cv(chunk, j)) && evalok(bhi(e), ck(chunk, j), cv(chunk, j)) && lbvals[j] == evalv(blo(e), ck(chunk, j), cv(chunk, j)) && ubvals[j] == evalv(bhi(e), ck(chunk, j), cv(chunk, j))
+//@     invariant forall j Int :: i <= j && j < len(chunk) ==> rleft[j] == lvI(e, chunk, j)
+//@     invariant !number ==> (forall j Int :: 0 <= j && j < i ==> isText(lvI(e, chunk, j)) && isText(evalv(blo(e), ck(chunk, j), cv(chunk, j))) && isText(evalv(bhi(e), ck(chunk, j), cv(chunk, j))) && cmp(textOf(evalv(blo(e), ck(chunk, j), cv(chunk, j))), textOf(evalv(bhi(e), ck(chunk, j), cv(chunk, j)))) <= 0 && rleft[j] == ABool(cmp(textOf(evalv(blo(e), ck(chunk, j), cv(chunk, j))), textOf(lvI(e, chunk, j))) <= 0 && cmp(textOf(lvI(e, chunk, j)), textOf(evalv(bhi(e), ck(chunk, j), cv(chunk, j)))) <= 0))
+//@     invariant number ==> (forall j Int :: 0 <= j && j < i ==> isNum(lvI(e, chunk, j)) && isNum(evalv(blo(e), ck(chunk, j), cv(chunk, j))) && isNum(evalv(bhi(e), ck(chunk, j), cv(chunk, j))) && (isInt(lvI(e, chunk, j)) && isInt(evalv(blo(e), ck(chunk, j), cv(chunk, j))) && isInt(evalv(bhi(e), ck(chunk, j), cv(chunk, j))) ==> intof(evalv(blo(e), ck(chunk, j), cv(chunk, j))) <= intof(evalv(bhi(e), ck(chunk, j), cv(chunk, j))) && rleft[j] == ABool(intof(evalv(blo(e), ck(chunk, j), cv(chunk, j))) <= intof(lvI(e, chunk, j)) && intof(lvI(e, chunk, j)) <= intof(evalv(bhi(e), ck(chunk, j), cv(chunk, j))))))
+//
 //@ func (e *BinaryOpExpr) execStringConcateBatch(chunk []KVPair, ctx *ExecuteCtx) (ret []any, err error)
 //@   trusted thin contract (frame only), body not yet verified
 //@   requires wfBin(e)
@@ -190,11 +203,11 @@ package kvql
 //
 // The vector form of a binary node agrees with the documented meaning (doc_bin) row by row, for
 // the operators whose helpers are proved above.
-//@ define provedOp(e *BinaryOpExpr) Bool = e.Op == Eq || e.Op == NotEq || e.Op == PrefixMatch || e.Op == And || e.Op == KWAnd || e.Op == Or || e.Op == KWOr || isOrderOp(e.Op) || e.Op == Sub || e.Op == Mul || e.Op == Div || (e.Op == Add && rtype(e.Left) != TSTR)
+//@ define provedOp(e *BinaryOpExpr) Bool = e.Op == Eq || e.Op == NotEq || e.Op == PrefixMatch || e.Op == And || e.Op == KWAnd || e.Op == Or || e.Op == KWOr || isOrderOp(e.Op) || e.Op == Sub || e.Op == Mul || e.Op == Div || (e.Op == Add && rtype(e.Left) != TSTR) || (e.Op == Between && rtype(e.Left) == TSTR)
 //@ func (e *BinaryOpExpr) ExecuteBatch(chunk []KVPair, ctx *ExecuteCtx) (ret []any, err error) implements Expression.ExecuteBatch
 //@   props C03
 //@   ifaceassumed same
-//@   requires wfBin(e)
+//@   requires wfBetween(e)
 //@   use forall i Int :: doc_bin(e, chunk[i])
 //@   ensures[C03] twin: err == nil && provedOp(e) ==> rowsOf(e, chunk, ret)
 //
